@@ -267,7 +267,7 @@ func Verif_C11_cancel_during_establishment() {
 // schedule (2 pre-emptions) exactly one is established and the loser is rejected without
 // removing the winner's entry.
 func Verif_C11_same_id_race() {
-	verifapi.ExploreSchedules(2 + verifapi.Tier())
+	verifapi.ExploreSchedules(2) // 3 pre-emptions exceed 200000 paths; the thorough tier deepens the cancellation harness instead
 	verifapi.SelectFork(false)
 	n := verifNetceptor("A")
 	s := n.s
